@@ -32,7 +32,7 @@ ReplyChunks(b) == CASE b \in OkLike \cup BadStrings \cup {"badbool", "badlevel",
 \* err_io: a listed source does not exist (defect in "file" 1) / a reference directory does not exist (2);
 \* err_io_ext: a source without the .slice extension; err_io_dir: a directory given as a source
 \* err_fileattr: an attribute that is illegal on a file, on a file that holds nothing else (no module, no definitions)
-ErrClasses == {"err_io", "err_io_ext", "err_io_dir", "err_fileattr", "err_syntax", "err_attr", "err_type", "err_cycle", "err_redef", "err_rule", "err_256"}
+ErrClasses == {"err_io", "err_io_ext", "err_io_dir", "err_fileattr", "err_syntax", "err_attr", "err_type", "err_cycle", "err_redef", "err_redef_alias", "err_rule", "err_256"}
 \* one class per lint: Deprecated, MalformedDocComment, BrokenDocLink, IncorrectDocComment (each a warning, never an error)
 WarnClasses == {"warn", "warn_malformed", "warn_link", "warn_incorrect"}
 \* "big": a clean program whose request is larger than a pipe buffer (4000 structs, about 250 KiB)
